@@ -410,6 +410,28 @@ impl Project {
             }
             g.insert(f.rel.clone(), s);
         }
+        // A generic instantiated with a package constant as argument: the
+        // specialisation belongs to the definer's file and mentions the
+        // package, so veryl's file graph also has definer -> package.
+        for it in self.items.iter().filter(|i| i.alive) {
+            if let ItemKind::Module(m) = &it.kind {
+                for u in &m.uses {
+                    if let UseKind::Inst {
+                        child,
+                        garg: Some(GenArg::Const(pk, _)),
+                        ..
+                    } = &u.kind
+                        && let (Some(fc), Some(fp)) = (self.file_of(*child), self.file_of(*pk))
+                        && fc != fp
+                    {
+                        let (a, b) = (self.files[fc].rel.clone(), self.files[fp].rel.clone());
+                        if let Some(s) = g.get_mut(&a) {
+                            s.insert(b);
+                        }
+                    }
+                }
+            }
+        }
         g
     }
 
